@@ -1,4 +1,5 @@
 import PQ.Model.Ops
+import PQ.Model.Crash
 /-!
 # Line-protocol driver (mirror mode)
 
@@ -427,8 +428,8 @@ def exec (st : St) (op : String) : Pm Res := do
     let xs ← entries
     pure <| do
       let o ← buildOther st.kind xs
-      -- the harness counts comparisons globally: those spent building `other`, then those of `heap_build`
-      let t0 := s.ticks + o.ticks
+      -- comparisons spent building `other` are outside the measured window: only those of `heap_build` count
+      let t0 := s.ticks
       let (s', o') ← match st.kind with
         | .pq => MaxQ.append { s with ticks := 0 } { o with ticks := 0 }
         | .dpq => DQ.append { s with ticks := 0 } { o with ticks := 0 }
@@ -500,6 +501,89 @@ def exec (st : St) (op : String) : Pm Res := do
     pure <| .ok ({ kind := k, s := s' }, "ok")
   | _ => throw s!"unknown op {op}"
 
+/-- white-box state without peeks and counter (what the harness can read after an injected fault) -/
+def showCore (s : Store Int) : String :=
+  let m := s.map.foldl (fun acc e => acc ++ " " ++ showE e) s!"m {s.map.size}"
+  s!"{m} h {showNats s.heap} q {showNats s.qp} s {s.size}"
+
+def kindName : Kind → String
+  | .pq => "pq"
+  | .dpq => "dpq"
+
+/-- C10 mirror: run `op` on the crash model with the `k`-th comparison of the operation panicking; returns the model's
+post-unwinding state (`none` = the fuse did not fire). -/
+def execCrash (st : St) (k : Nat) (op : String) : Pm (Except String (Option (Kind × Store Int))) := do
+  -- the ghost counter is zeroed so that `fuse = k` is the k-th comparison of this operation whichever store ends
+  -- up as the receiver (`append` may swap)
+  let s : Store Int := { st.s with ticks := 0 }
+  let pq := st.kind == .pq
+  let fin {α : Type} (r : Crash.CR Int α) : Except String (Option (Kind × Store Int)) :=
+    match r with
+    | .ok _ => .ok none
+    | .error (.crashed s') => .ok (some (st.kind, s'))
+    | .error .crashedNew => .ok (some (st.kind, st.s))
+    | .error (.fault f) => .error s!"model fault {showFaultSite f} inside a fused operation"
+  match op with
+  | "push" =>
+    let e ← entry
+    pure <| if pq then fin (Crash.MaxQ.pushF k s e.1 e.2) else fin (Crash.DQ.pushF k s e.1 e.2)
+  | "push_increase" =>
+    let e ← entry
+    pure <| if pq then fin (Crash.MaxQ.pushIncreaseF k s e.1 e.2) else fin (Crash.DQ.pushIncreaseF k s e.1 e.2)
+  | "push_decrease" =>
+    let e ← entry
+    pure <| if pq then fin (Crash.MaxQ.pushDecreaseF k s e.1 e.2) else fin (Crash.DQ.pushDecreaseF k s e.1 e.2)
+  | "change_priority" =>
+    let key ← nat; let p ← int
+    pure <| if pq then fin (Crash.MaxQ.changePriorityF k s key p) else fin (Crash.DQ.changePriorityF k s key p)
+  | "change_priority_by" =>
+    let key ← nat; let p ← int
+    pure <| if pq then fin (Crash.MaxQ.changePriorityByF k s key (fun _ => p)) else fin (Crash.DQ.changePriorityByF k s key (fun _ => p))
+  | "remove" =>
+    let key ← nat
+    pure <| if pq then fin (Crash.MaxQ.removeF k s key) else fin (Crash.DQ.removeF k s key)
+  | "pop" => pure <| fin (Crash.MaxQ.popF k s)
+  | "pop_min" => pure <| fin (Crash.DQ.popMinF k s)
+  | "pop_max" => pure <| fin (Crash.DQ.popMaxF k s)
+  | "peek_max" => pure <| fin (Crash.DQ.peekMaxF k s)
+  | "pop_if" | "pop_min_if" | "pop_max_if" =>
+    let w ← writeP; let ret ← flag
+    let f : Item → Int → Bool × Item × Int := fun it p =>
+      (ret, (match w.payload with | some pl => { it with payload := pl } | none => it),
+        (match w.prio with | some q => q | none => p))
+    pure <| match op with
+      | "pop_if" => fin (Crash.MaxQ.popIfF k s f)
+      | "pop_min_if" => fin (Crash.DQ.popMinIfF k s f)
+      | _ => fin (Crash.DQ.popMaxIfF k s f)
+  | "retain_mut" =>
+    let n ← nat; let rows ← rep n predRow
+    let f := predOf rows
+    pure <| if pq then fin (Crash.MaxQ.retainMutF k s f) else fin (Crash.DQ.retainMutF k s f)
+  | "iter_mut" =>
+    let _mode ← tok
+    let n ← nat
+    let prog ← rep n (do let c ← xcall; let w ← writeP; pure (c, w))
+    let prims := prog.toList.filterMap fun (c, w) => match c with | .prim c => some (c, w) | .nth _ _ => none
+    if prims.length != prog.size then throw "crash mirror: iter_mut programs with nth are not supported"
+    pure <| if pq then fin (Crash.MaxQ.iterMutDropF k s prims) else fin (Crash.DQ.iterMutDropF k s prims)
+  | "extend" =>
+    let lo ← nat; let _hi ← optNat; let xs ← entries
+    pure <| if pq then fin (Crash.MaxQ.extendF k s lo xs) else fin (Crash.DQ.extendF k s lo xs)
+  | "from_vec" =>
+    let xs ← entries
+    pure <| if pq then fin (Crash.MaxQ.fromVecF (P := Int) k xs) else fin (Crash.DQ.fromVecF (P := Int) k xs)
+  | "from_iter" =>
+    let _lo ← nat; let _hi ← optNat; let xs ← entries
+    pure <| if pq then fin (Crash.MaxQ.fromIterF (P := Int) k xs) else fin (Crash.DQ.fromIterF (P := Int) k xs)
+  | "append" =>
+    let xs ← entries
+    pure <| match buildOther st.kind xs with
+      | .error f => .error s!"model fault {showFaultSite f} while building the other queue"
+      | .ok o =>
+        let o0 : Store Int := { o with ticks := 0 }
+        if pq then fin (Crash.MaxQ.appendF k s o0) else fin (Crash.DQ.appendF k s o0)
+  | _ => throw s!"crash mirror: unsupported operation {op}"
+
 /-- ops whose comparisons are performed on a consumed copy: the harness counts them, the model's state does not change -/
 def copyOpTicks (st : St) (op : String) (args : List String) : Nat :=
   let s := st.s
@@ -539,20 +623,33 @@ def runLine (st : St) (lhs : List String) : Except String (St × String) :=
   match lhs with
   | [] => .error "empty line"
   | op :: args =>
-    match (exec st op).run args with
-    | .error e => .error e
-    | .ok (res, rest) =>
-      if !rest.isEmpty then .error s!"trailing tokens after {op}: {rest}"
-      else
-        match res with
-        | .error f => .ok (st, showFault f ++ " | -" ++ " @" ++ showFaultSite f)
-        | .ok (st', out) =>
-          let dt := (st'.s.ticks - st.s.ticks) + copyOpTicks st op args
-          -- `load`, `from_*`, `deser` replace the store: their tick delta is the new store's own count
-          let dt := match op with
-            | "load" => 0
-            | "from_iter" | "from_vec" => st'.s.ticks
-            | _ => dt
-          .ok (st', out ++ " | " ++ showSnap st'.kind st'.s dt)
+    if op.startsWith "!cmp" && (match args with | inner :: _ => !inner.startsWith "!" | [] => false) then
+      match (op.drop 4).toString.toNat?, args with
+      | some k, inner :: rest =>
+        match (execCrash st k inner).run rest with
+        | .error e => .error e
+        | .ok (r, left) =>
+          if !left.isEmpty then .error s!"trailing tokens after {inner}: {left}"
+          else match r with
+            | .error e => .error e
+            | .ok none => runLine st (inner :: rest)   -- the fuse does not fire: the operation runs to completion
+            | .ok (some (k', s')) => .ok (st, s!"fault user | {kindName k'} {showCore s'}")
+      | _, _ => .error s!"bad crash line {op}"
+    else
+      match (exec st op).run args with
+      | .error e => .error e
+      | .ok (res, rest) =>
+        if !rest.isEmpty then .error s!"trailing tokens after {op}: {rest}"
+        else
+          match res with
+          | .error f => .ok (st, showFault f ++ " | -" ++ " @" ++ showFaultSite f)
+          | .ok (st', out) =>
+            let dt := (st'.s.ticks - st.s.ticks) + copyOpTicks st op args
+            -- `load`, `from_*`, `deser` replace the store: their tick delta is the new store's own count
+            let dt := match op with
+              | "load" => 0
+              | "from_iter" | "from_vec" => st'.s.ticks
+              | _ => dt
+            .ok (st', out ++ " | " ++ showSnap st'.kind st'.s dt)
 
 end PQ.Driver
